@@ -274,4 +274,41 @@ theorem loopOut_spec (tinp : Nat → Nat) (v cg : Nat) (cache : List Nat) :
         obtain ⟨st', h1, h2, h3⟩ := this
         exact ⟨st', h1, h2, by simp [h3]⟩
 
+set_option maxRecDepth 8000 in
+set_option maxHeartbeats 2000000 in
+/-- `ShmReader::snapshot` is `SL.readerProg`, for every stream of load results, every cache, every fuel
+    ≥ RETRIES + 200 -/
+theorem snapshot_tie (inp : Nat → Nat) (cg : Nat) (cache : List Nat) (nowNs : Int) (sizes : List (String × Nat))
+    (F : Nat) (hF : SL.RETRIES ≤ F) :
+    runFuel (F + 200) (sctx nowNs sizes inp) "ShmReader::snapshot" (readerValue cg cache) []
+    = readerOutcome (SL.readerProg {} (typedInp inp) cg cache) := by
+  -- the source literal `1_000_000` is the model's RETRIES (the only place where RETRIES is unfolded)
+  have hR : ((SL.RETRIES : Nat) : Int) = 1000000 := rfl
+  have hR2 : SL.RETRIES ≤ 2147483647 := by decide
+  have hloop := loop_eq inp nowNs sizes _ _ rfl (typedInp inp 0) cg cache SL.RETRIES hR2 .infer (Or.inl rfl)
+    2 ⟨0, rfl⟩ (typedInp inp 1)
+  simp only [LS, sfr, hR, readerValue, wordsValue, rs_eval] at hloop
+  -- the function up to the loop: version load, generation load, the three early returns
+  simp [rs_eval, rs_code, readerValue, wordsValue, rawInp, typedInp_0, typedInp_1]
+  rw [hloop _ _ (by omega)]
+  -- the loop, and the rest of the function on its two kinds of outcome
+  generalize hL : loopOut _ _ _ _ _ _ _ _ _ = r
+  have hs := loopOut_spec _ _ _ _ _ _ _ _ _ _ hL
+  clear hL hloop hR hR2 hF
+  simp only [SL.readerProg, readerOutcome]
+  rcases hrl : SL.readerLoop {} (typedInp inp) SL.RETRIES 2 (typedInp inp 1) with ⟨accs, _ | ⟨g', cells⟩⟩
+  · rw [hrl] at hs
+    obtain ⟨st', rfl, h2, h3⟩ := hs
+    simp [rs_eval, h2, h3, resultValue, readerValue, wordsValue]
+    split_ifs <;> simp_all [accValue, locValue, locTy, ordValue, ordering] <;> omega
+  · rw [hrl] at hs
+    obtain ⟨st', rfl, h2, h3⟩ := hs
+    simp [rs_eval, h2, h3, resultValue, readerValue, wordsValue]
+    split_ifs <;> simp_all [accValue, locValue, locTy, ordValue, ordering] <;> omega
+
+/-- a well-typed stream of load results is not changed by the reduction to the width of the locations -/
+theorem typedInp_id (inp : Nat → Nat) (h : ∀ k, inp k < loadCard k) : typedInp inp = inp := by
+  funext k
+  exact Nat.mod_eq_of_lt (h k)
+
 end ClockBound.Rs.SeqlockProof
